@@ -24,7 +24,9 @@ def handle (op : String) (a r : Json) : Except String Reply := do
       let kind ← getStr e "k"
       let n := (getNat e "n").toOption.getD 0
       match kind with
-      | "append" => m := mstep m (.grow ((List.range n).map fun i => (m.remote.length + i) % 251))
+      | "append" =>
+        let base := m.remote.length   -- computed once: the closure below must not measure the list for every byte
+        m := mstep m (.grow ((List.range n).map fun i => (base + i) % 251))
       | "cut" => k := k + 1; m := mstep m (.fetch ((m.remote.length - m.loc.length) / (k + 1)))
       | "restore" => m := mstep m (.fetch ((m.remote.length - m.loc.length) / 2))
       | _ => pure ()
